@@ -60,16 +60,18 @@ TInit ==
 (* The reference consumes everything the call made available.  Result:
    [r, rd (messages delivered), bad (clause), dev (deviation rule met, "" if none)] *)
 RECURSIVE Run(_, _, _, _, _, _)
+RunK(st, avail, e, cf0, base, rd) ==
+    IF st.out.k = "badinfl" THEN [r |-> st.r, rd |-> rd, bad |-> "InflateInput", dev |-> ""]
+    ELSE IF st.out.k = "noinfl" THEN [r |-> st.r, rd |-> rd, bad |-> "CompressedMessageNotInflated", dev |-> ""]
+    ELSE IF st.out.k = "fail" /\ st.r.why \in Devs(tid) THEN [r |-> st.r, rd |-> rd, bad |-> "", dev |-> st.r.why]
+    ELSE Run(st.r, avail, e, cf0, base, IF st.out.k = "msg" THEN Append(rd, st.out.m) ELSE rd)
+
 Run(rr, avail, e, cf0, base, rd) ==
     IF ~CanStep(rr, avail) THEN [r |-> rr, rd |-> rd, bad |-> "", dev |-> ""]
     ELSE LET I(k, full) == IF e.c0 + k <= e.c1 THEN Cfg(tid).calls[e.c0 + k] ELSE NoCall
              \* at a point where C12 permits either outcome follow what the code did
              rej == e.exc = 1009 /\ cf0 = 0 /\ base = Len(rd)
-             st == Step(rr, Strm(tid), avail, C(tid), I, rej)
-         IN IF st.out.k = "badinfl" THEN [r |-> st.r, rd |-> rd, bad |-> "InflateInput", dev |-> ""]
-            ELSE IF st.out.k = "noinfl" THEN [r |-> st.r, rd |-> rd, bad |-> "CompressedMessageNotInflated", dev |-> ""]
-            ELSE IF st.out.k = "fail" /\ st.r.why \in Devs(tid) THEN [r |-> st.r, rd |-> rd, bad |-> "", dev |-> st.r.why]
-            ELSE Run(st.r, avail, e, cf0, base, IF st.out.k = "msg" THEN Append(rd, st.out.m) ELSE rd)
+         IN One({RunK(st, avail, e, cf0, base, rd) : st \in {Step(rr, Strm(tid), avail, C(tid), I, rej)}})
 
 RECURSIVE Common(_, _, _)
 Common(x, y, k) == IF k < Len(x) /\ k < Len(y) /\ x[k + 1] = y[k + 1] THEN Common(x, y, k + 1) ELSE k
@@ -88,73 +90,77 @@ MaxFrags(mx) == IF mx = 0 THEN 0 ELSE IF mx \div 256 > 1024 THEN mx \div 256 ELS
 SigOf(ms) == [i \in 1..Len(ms) |-> <<ms[i].t, Len(ms[i].data), ms[i].code>>]
 
 \* ---- one feed_data call
-Feed(e) ==
+(* TLC re-evaluates a LET definition at every use; binding through a singleton set
+   (\E x \in {expr}) evaluates it once.                                            *)
+Pre(e) ==
+    IF e.st THEN [r |-> Init0, t |-> 0, nd |-> 0, cd |-> 0, cf |-> 0, sig |-> <<>>, ta |-> FALSE]
+    ELSE [r |-> r, t |-> tgt, nd |-> nd, cd |-> cdel, cf |-> cfail, sig |-> sig, ta |-> tainted]
+
+Msgs(e) == [i \in 1..Len(e.msgs) |-> [t |-> e.msgs[i].t, data |-> e.msgs[i].data, code |-> e.msgs[i].code]]
+
+Clause(p, q, cm, e, avail, over, ta1, cf2, outcome) ==
     LET c == C(tid)
         K == Cfg(tid).K
-        fresh == e.st
-        r0 == IF fresh THEN Init0 ELSE r
-        t0 == IF fresh THEN 0 ELSE tgt
-        nd0 == IF fresh THEN 0 ELSE nd
-        cd0 == IF fresh THEN 0 ELSE cdel
-        cf0 == IF fresh THEN 0 ELSE cfail
-        sig0 == IF fresh THEN <<>> ELSE sig
-        ta0 == IF fresh THEN FALSE ELSE tainted
-        avail == t0 + e.n
-        over == avail > Len(Strm(tid))
-        q == IF ta0 \/ over THEN [r |-> r0, rd |-> <<>>, bad |-> "", dev |-> ""]
-             ELSE Run(r0, avail, e, cf0, cd0 + Len(e.msgs) - nd0, <<>>)
-        ta1 == ta0 \/ q.dev # ""
-        rd == q.rd
-        rr == q.r
-        cm == [i \in 1..Len(e.msgs) |-> [t |-> e.msgs[i].t, data |-> e.msgs[i].data, code |-> e.msgs[i].code]]
-        failedBefore == cf0 # 0
+        failedBefore == p.cf # 0
         newFail == e.exc # 0 /\ ~failedBefore
-        cf2 == IF newFail THEN e.exc ELSE cf0
-        sig2 == sig0 \o SigOf(cm)
-        outcome == <<sig2, cf2>>
-        clause ==
-            IF over THEN "HarnessStreamOverrun"
-            ELSE IF failedBefore /\ cm # <<>> THEN "DeliveredAfterError"
-            ELSE IF failedBefore /\ e.exc # cf0 THEN "ErrorNotLatched"
-            ELSE IF ta1 THEN ""
-            ELSE IF q.bad # "" THEN q.bad
-            ELSE IF cm # rd THEN Mismatch(cm, rd, rr, e, cf0)
-            ELSE IF newFail /\ ~Failed(rr) THEN "SpuriousError"
-            ELSE IF newFail /\ e.exc \notin rr.failed THEN "WrongCloseCode"
-            ELSE IF c.max > 0 /\ e.retained > c.max + K THEN "RetainedTooMuch"
-            ELSE IF c.max > 0 /\ \E i \in (e.c0 + 1)..e.c1 : Cfg(tid).calls[i].outlen > c.max + K THEN "InflateUnbounded"
-            ELSE IF e.en /\ Failed(rr) /\ cf2 = 0 /\ avail >= rr.fend THEN "Accepted:" \o rr.why
-            ELSE IF e.en /\ first # None /\ first # outcome THEN "SegmentationDependent"
-            ELSE ""
-        d == IF clause # "" \/ ta1 THEN ""
-             ELSE IF e.rpriv >= 0 /\ ~Failed(rr) /\ cf2 = 0 /\ e.rpriv # Retained(rr, avail) THEN "retained"
-             ELSE IF MaxFrags(c.max) > 0 /\ e.frags > MaxFrags(c.max) /\ ~e.paused THEN "fragment-pause"
-             ELSE IF \E i \in 1..Len(e.msgs) : e.msgs[i].size # e.msgs[i].wsize THEN "msg-size"
-             ELSE IF \E i \in (e.c0 + 1)..e.c1 : ~Cfg(tid).calls[i].xeq THEN "inflate-crosscheck"
-             ELSE ""
-        l2 == IF clause = "" THEN l + 1 ELSE l
-        dr2 == IF d # "" /\ Len(drift) < 3 THEN Append(drift, <<l + 1, d>>) ELSE drift
-        used2 == IF q.dev # "" THEN used \cup {q.dev} ELSE used
-    IN /\ bad' = clause
+    IN
+    IF over THEN "HarnessStreamOverrun"
+    ELSE IF failedBefore /\ cm # <<>> THEN "DeliveredAfterError"
+    ELSE IF failedBefore /\ e.exc # p.cf THEN "ErrorNotLatched"
+    ELSE IF ta1 THEN ""
+    ELSE IF q.bad # "" THEN q.bad
+    ELSE IF cm # q.rd THEN Mismatch(cm, q.rd, q.r, e, p.cf)
+    ELSE IF newFail /\ ~Failed(q.r) THEN "SpuriousError"
+    ELSE IF newFail /\ e.exc \notin q.r.failed THEN "WrongCloseCode"
+    ELSE IF c.max > 0 /\ e.retained > c.max + K THEN "RetainedTooMuch"
+    ELSE IF c.max > 0 /\ \E i \in (e.c0 + 1)..e.c1 : Cfg(tid).calls[i].outlen > c.max + K THEN "InflateUnbounded"
+    ELSE IF e.en /\ Failed(q.r) /\ cf2 = 0 /\ avail >= q.r.fend THEN "Accepted:" \o q.r.why
+    ELSE IF e.en /\ first # None /\ first # outcome THEN "SegmentationDependent"
+    ELSE ""
+
+Drift(q, e, avail, cf2) ==
+    LET c == C(tid) IN
+    IF e.rpriv >= 0 /\ ~Failed(q.r) /\ cf2 = 0 /\ e.rpriv # Retained(q.r, avail) THEN "retained"
+    ELSE IF MaxFrags(c.max) > 0 /\ e.frags > MaxFrags(c.max) /\ ~e.paused THEN "fragment-pause"
+    ELSE IF \E i \in 1..Len(e.msgs) : e.msgs[i].size # e.msgs[i].wsize THEN "msg-size"
+    ELSE IF \E i \in (e.c0 + 1)..e.c1 : ~Cfg(tid).calls[i].xeq THEN "inflate-crosscheck"
+    ELSE ""
+
+Feed(e) ==
+    \E p \in {Pre(e)} :
+    \E avail \in {p.t + e.n} :
+    \E over \in {avail > Len(Strm(tid))} :
+    \E q \in {IF p.ta \/ over THEN [r |-> p.r, rd |-> <<>>, bad |-> "", dev |-> ""]
+              ELSE Run(p.r, avail, e, p.cf, p.cd + Len(e.msgs) - p.nd, <<>>)} :
+    \E cm \in {Msgs(e)} :
+    \E ta1 \in {p.ta \/ q.dev # ""} :
+    \E cf2 \in {IF e.exc # 0 /\ p.cf = 0 THEN e.exc ELSE p.cf} :
+    \E sig2 \in {p.sig \o SigOf(cm)} :
+    \E clause \in {Clause(p, q, cm, e, avail, over, ta1, cf2, <<sig2, cf2>>)} :
+    \E d \in {IF clause # "" \/ ta1 THEN "" ELSE Drift(q, e, avail, cf2)} :
+    \E l2 \in {IF clause = "" THEN l + 1 ELSE l} :
+    \E dr2 \in {IF d # "" /\ Len(drift) < 3 THEN Append(drift, <<l + 1, d>>) ELSE drift} :
+    \E used2 \in {IF q.dev # "" THEN used \cup {q.dev} ELSE used} :
+       /\ bad' = clause
        /\ drift' = dr2
        /\ l' = l2
-       /\ r' = rr
+       /\ r' = q.r
        /\ tgt' = avail
-       /\ cdel' = cd0 + Len(cm)
-       /\ nd' = nd0 + Len(rd)
+       /\ cdel' = p.cd + Len(cm)
+       /\ nd' = p.nd + Len(q.rd)
        /\ cfail' = cf2
        /\ sig' = sig2
        /\ tainted' = ta1
        /\ used' = used2
-       /\ first' = IF e.en /\ first = None /\ ~ta1 THEN outcome ELSE first
-       /\ UNCHANGED tid
+       /\ first' = IF e.en /\ first = None /\ ~ta1 THEN <<sig2, cf2>> ELSE first
+       /\ tid' = tid
        /\ Verdict(tid, l2, clause, IF clause = "" THEN <<dr2, used2>>
-                                   ELSE <<e.seg, rr.why, rr.failed, e.exc>>)
+                                   ELSE <<e.seg, q.r.why, q.r.failed, e.exc>>)
 
 TNext ==
     /\ bad = ""
     /\ l < NEvents(tid)
-    /\ Feed(Events(tid)[l + 1])
+    /\ \E e \in {Events(tid)[l + 1]} : Feed(e)
 
 TSpec == TInit /\ [][TNext]_tvars
 =============================================================================
